@@ -41,6 +41,7 @@ CONSTANTS MaxDim,            \* CGLS: all full-rank A in {-1,0,1}^(m x n), m, n 
           Level,             \* 1 (quick): three right-hand sides per shape, short list of unimodular matrices for "kkt";
                              \* 2 (thorough): every b in the box, all 2x2 unimodular matrices over {-1,0,1,2}, and 3x3
           MagBound,          \* cg: a state whose numerators / denominators exceed this is not iterated further (32-bit TLC)
+          MagBound3,         \* the same bound for the problems with a dimension equal to 3
           Kinds,             \* subset of {"cg", "prox", "kkt", "lm", "wrap"}
           Emit,
           PcglsIgnoresShift,
@@ -126,10 +127,12 @@ NormalRes(p, A, Pinv, sh, x) ==
 
 \* 32-bit guard: the recurrences are followed as long as all numbers of the state are small; a problem whose
 \* iterates grow beyond the bound is "abandoned": its prefix and its exact solution are still emitted.
-SmallVec(v) == \A i \in 1..Len(v) : Abs(v[i][1]) <= MagBound /\ v[i][2] <= MagBound
-Status(x, r, s, p, gamma) ==
-    IF gamma = Zero THEN "converged"
-    ELSE IF SmallVec(x) /\ SmallVec(r) /\ SmallVec(s) /\ SmallVec(p) /\ SmallVec(<<gamma>>) THEN "iter" ELSE "abandoned"
+SmallVec(v, B) == \A i \in 1..Len(v) : Abs(v[i][1]) <= B /\ v[i][2] <= B
+Status(pr, x, r, s, p, gamma) ==
+    LET B == IF pr.m >= 3 \/ pr.n >= 3 THEN MagBound3 ELSE MagBound
+    IN IF gamma = Zero THEN "converged"
+       ELSE IF SmallVec(x, B) /\ SmallVec(r, B) /\ SmallVec(s, B) /\ SmallVec(p, B) /\ SmallVec(<<gamma>>, B) THEN "iter"
+       ELSE "abandoned"
 
 CgInit(p) ==
     LET A == MR(p.A)  x == VR(p.x0)
@@ -137,7 +140,7 @@ CgInit(p) ==
         r == F(QVSub(VR(p.b), QMV(A, x)))
         s == F(ApplyPinvT(p, Pinv, QVSub(QMV(MT(A), r), QVScale(EffShift(p), x))))
         gam == F(QNorm2(s))
-    IN  /\ it' = [x |-> x, r |-> r, s |-> s, p |-> s, gamma |-> gam, k |-> 0, status |-> Status(x, r, s, s, gam)]
+    IN  /\ it' = [x |-> x, r |-> r, s |-> s, p |-> s, gamma |-> gam, k |-> 0, status |-> Status(p, x, r, s, s, gam)]
         /\ hist' = << [fwd |-> x, adj |-> r, x |-> x, s |-> s] >>
 
 Iterate ==
@@ -155,16 +158,19 @@ Iterate ==
            gam1  == F(QNorm2(s1))
            p1    == F(QAxpy(s1, QDiv(gam1, it.gamma), it.p))
        IN /\ it' = [x |-> x1, r |-> r1, s |-> s1, p |-> p1, gamma |-> gam1, k |-> it.k + 1,
-                    status |-> Status(x1, r1, s1, p1, gam1)]
+                    status |-> Status(pb, x1, r1, s1, p1, gam1)]
           /\ hist' = Append(hist, [fwd |-> t, adj |-> r1, x |-> x1, s |-> s1])
     /\ UNCHANGED <<pb, ph>>
 
 \* ---- invariants of the cg machine ---------------------------------------
+\* (an abandoned state holds numbers beyond the safe range: nothing is recomputed from it)
+Live == Run("cg") /\ it.status # "abandoned"
+
 ResidualInv ==
-    Run("cg") => it.r = QVSub(VR(pb.b), QMV(MR(pb.A), it.x))
+    Live => it.r = QVSub(VR(pb.b), QMV(MR(pb.A), it.x))
 
 NormalResidualInv ==
-    Run("cg") =>
+    Live =>
         /\ it.s = NormalRes(pb, MR(pb.A), IF IsPc(pb) THEN PinvOf(pb) ELSE <<>>, EffShift(pb), it.x)
         /\ it.gamma = QNorm2(it.s)
 
@@ -174,7 +180,7 @@ FiniteTermination ==
 
 \* the residuals s_0, s_1, ... are mutually orthogonal (conjugate-gradient property)
 Orthogonality ==
-    Run("cg") => \A i \in 1..Len(hist) : \A j \in 1..Len(hist) : i < j => QDot(hist[i].s, hist[j].s) = Zero
+    Live => \A i \in 1..Len(hist) : \A j \in 1..Len(hist) : i < j => QDot(hist[i].s, hist[j].s) = Zero
 
 \* at termination the (true) shifted normal equations hold
 NormalEquations ==
